@@ -14,6 +14,8 @@ func init() {
 			ruleWatcher(c, "C01.9")
 			ruleDecodeResets(c, "C01.10")
 			ruleCloseSendAfterFinish(c, "C01.11")
+			ruleCodecFidelity(c, "C01.12")
+			ruleChannelClose(c, "C01.13")
 		},
 		Explain:    "Static structural necessary conditions of exactly-once/in-order/intact delivery on the right RPC, decided on the SSA form of the current tree: byte accounting of the chunk loops in both senders, envelope/continuation construction in both send callbacks, the state machine of both reassembly functions (every loop edge and every return classified), non-nil error whenever no data is returned (marker-before-wake argument), routing by the received frame's own id, id origin of every emitted frame, FIFO/drain-before-EOF discipline of the queue, single consumer under the read mutex. All paths, all instantiations; no bound on sizes or schedules. Not the behaviour itself: byte equality through protobuf and the transport are trusted.",
 		Assume:     []string{"protobuf marshal/unmarshal and the carrier transport deliver bytes unchanged and in order", "gRPC's one-sender/one-receiver-per-stream contract", "container/list is FIFO with PushBack/Front"},
@@ -73,6 +75,7 @@ func init() {
 			ruleCloseSafety(c, "C03.12")
 			ruleLockBalance(c, "C03.13")
 			ruleEveryFrameKindHandled(c, "C03.14")
+			ruleLockOrder(c, "C03.15")
 		},
 		Explain:    "Static necessary conditions of RPC independence: the effect set reachable on each receive loop's own goroutine (over resolved call edges minus go sites, restricted to code that continues the loop) contains no carrier send, blocking channel operation, cond/WaitGroup wait or user callback; every lock the loops take is short (no such effect anywhere while it may be held; frozen exceptions named); tunnel-level termination is reachable only for Recv failure / never-created id / reused id; stream-level rejections are recorded in the high-water mark before returning; window updates never run on a loop goroutine or under the receiver's lock. Liveness ('never indefinitely delays') is not decided.",
 		Assume:     []string{"a conforming peer's receive loop never waits on us (needed for the server write-mutex exception)", "VTA call graph over-approximates dynamic calls", "external callees are summarised (context, metadata, status, list: non-blocking)"},
